@@ -51,6 +51,31 @@ structure Caps where
   rgb8 : Bool
 deriving DecidableEq, Repr, Inhabited
 
+/-- Which of the repairs proposed in `fixes/` the working tree contains (read from the source by
+    `bin/extract.d/30_xterm.py` into `Gen.XTermFacts`); the model mirrors either version of the code. -/
+structure Fixes where
+  /-- `scrollrect` returns `false` when a needed DECSTBM / DECSLRM margin would be degenerate
+      (`fixes/C09_scroll_one_column.patch`). -/
+  scrollGuard : Bool
+  /-- the reverse-video erase loop counts down a copy, so `move_rel` gets the full `count`
+      (`fixes/C09_rv_erase_over_64.patch`). -/
+  eraseKeepsCount : Bool
+deriving DecidableEq, Repr, Inhabited
+
+/-- The code as found in the unchanged tree. -/
+def Fixes.none : Fixes := ⟨false, false⟩
+
+/-- `printf` restricted to `%d`: the format strings of the source, instantiated. -/
+def fmt : List UInt8 → List Int → List UInt8
+  | [], _ => []
+  | [b], _ => [b]
+  | a :: b :: rest, args =>
+    if a = 0x25 ∧ b = 0x64 then
+      match args with
+      | x :: more => showInt x ++ fmt rest more
+      | [] => fmt rest []
+    else a :: fmt (b :: rest) args
+
 /-- `TickitMaybeBool`. -/
 inductive MoveEnd | no | yes | maybe
 deriving DecidableEq, Repr, Inhabited
@@ -93,7 +118,7 @@ def scrollLine (line left rightward : Int) : List UInt8 :=
   gotoAbs line left ++ signedSeq rightward [] 0x50 0x40
 
 /-- `scrollrect`: `(return value, bytes)`. -/
-def scrollrect (caps : Caps) (termCols : Int) (rect : Rect) (downward rightward : Int) : Bool × List UInt8 :=
+def scrollrect (fx : Fixes) (caps : Caps) (termCols : Int) (rect : Rect) (downward rightward : Int) : Bool × List UInt8 :=
   if downward = 0 ∧ rightward = 0 then (true, [])
   else
     let right := rect.right
@@ -103,6 +128,8 @@ def scrollrect (caps : Caps) (termCols : Int) (rect : Rect) (downward rightward 
         ((List.range rect.lines.toNat).flatMap fun (i : Nat) => scrollLine (rect.top + (i : Int)) rect.left rightward) ++
         (if right < termCols then csi [0x73] else []))
     else if caps.slrm ∨ (rect.left = 0 ∧ rect.cols = termCols ∧ rightward = 0) then
+      if fx.scrollGuard ∧ (rect.lines < 2 ∨ ((rect.left > 0 ∨ right < termCols) ∧ rect.cols < 2)) then (false, [])
+      else
       (true,
         csi (showInt (rect.top + 1) ++ [0x3b] ++ showInt rect.bottom ++ [0x72]) ++
         (if rect.left > 0 ∨ right < termCols then csi (showInt (rect.left + 1) ++ [0x3b] ++ showInt right ++ [0x73]) else []) ++
@@ -121,14 +148,14 @@ def eraseRemainder (count : Int) : Int := count - 64 * ((count - 1) / 64)
 
 /-- `rv` is `tickit_pen_get_bool_attr(current pen, TICKIT_PEN_REVERSE)`.  The 64-byte chunk loop of the
     reverse-video branch emits `count` spaces in all (`64 * k` in the loop, the remainder after it). -/
-def erasech (rv : Bool) (count : Int) (moveend : MoveEnd) : List UInt8 :=
+def erasech (fx : Fixes) (rv : Bool) (count : Int) (moveend : MoveEnd) : List UInt8 :=
   if count < 1 then []
   else if !rv then
     (if count = 1 then csi [0x58] else csi (showInt count ++ [0x58])) ++
     (if moveend = .yes then moveRel 0 count else [])
   else
     List.replicate count.toNat 0x20 ++
-    (if moveend = .no then moveRel 0 (-(eraseRemainder count)) else [])
+    (if moveend = .no then moveRel 0 (-(if fx.eraseKeepsCount then count else eraseRemainder count)) else [])
 
 /-! ### `clear` -/
 
@@ -238,13 +265,13 @@ structure Drv where
 deriving Repr, Inhabited
 
 /-- Bytes and return value of a drawing request. -/
-def request (d : Drv) : Request → Bool × List UInt8
+def request (fx : Fixes) (d : Drv) : Request → Bool × List UInt8
   | .goto l c => (true, gotoAbs l c)
   | .move dn rt => (true, moveRel dn rt)
   | .print s n => (true, print s n)
-  | .erasech n me => (true, erasech d.pen.reverse n me)
+  | .erasech n me => (true, erasech fx d.pen.reverse n me)
   | .clear => (true, clear)
-  | .scroll r dn rt => scrollrect d.caps d.cols r dn rt
+  | .scroll r dn rt => scrollrect fx d.caps d.cols r dn rt
 
 /-! ### Specification: what each request asks of the screen -/
 
@@ -312,7 +339,8 @@ def EraseOK (count : Int) (me : MoveEnd) (vt vt' : VTState) : Prop :=
   sameModes vt vt' ∧ vt'.grid = eraseGrid count vt ∧ vt'.row = vt.row ∧
   (me = .no → vt'.col = vt.col ∧ vt'.pendingWrap = false) ∧
   (me = .yes → (vt.col + count < vt.cols → vt'.col = vt.col + count ∧ vt'.pendingWrap = false) ∧
-               (vt.col + count = vt.cols → vt'.col = vt.cols - 1))
+               (vt.col + count = vt.cols → vt'.col = vt.cols - 1)) ∧
+  (0 ≤ vt'.col ∧ vt'.col < vt.cols)
 
 /-- A successful `scrollrect` took the screen from `vt` to `vt'`: the cells of the rectangle moved by the offsets,
     vacated cells blank, nothing outside touched, margins (and everything else) as before; the cursor is somewhere
@@ -327,5 +355,25 @@ def marginsReset (vt : VTState) : Prop :=
 instance (vt : VTState) : Decidable (marginsReset vt) := by unfold marginsReset; exact inferInstance
 
 end Spec
+
+/-- The in-range contract of a scroll request on screen `vt` (DESIGN.md Appendix C). -/
+structure ScrollInRange (vt : VT.VTState) (rect : Rect) (downward rightward : Int) : Prop where
+  lines_pos : 1 ≤ rect.lines
+  cols_pos : 1 ≤ rect.cols
+  top : 0 ≤ rect.top
+  bottom : rect.bottom ≤ vt.lines
+  left : 0 ≤ rect.left
+  right : rect.right ≤ vt.cols
+  down : -rect.lines < downward ∧ downward < rect.lines
+  rightw : -rect.cols < rightward ∧ rightward < rect.cols
+
+/-- The trigger of the defect `scroll_one_column_counterexample`: a one-column rectangle that does not span the
+    terminal, scrolled vertically, with DECSLRM available. -/
+def OneColumnTrigger (caps : Caps) (termCols : Int) (rect : Rect) (downward : Int) : Prop :=
+  caps.slrm = true ∧ rect.cols = 1 ∧ downward ≠ 0 ∧ (rect.left > 0 ∨ rect.right < termCols)
+
+instance (caps : Caps) (termCols : Int) (rect : Rect) (downward : Int) :
+    Decidable (OneColumnTrigger caps termCols rect downward) := by unfold OneColumnTrigger; exact inferInstance
+
 
 end Tickit.XTermDrv
